@@ -284,3 +284,12 @@ def start_in_range(dname, X, w0, fit_intercept):
     p = X.shape[1]
     u = X @ w0[:p] + (w0[p] if fit_intercept else 0.0)
     return bool(np.max(np.abs(u)) <= 30.0)
+
+
+def fix_kw(solver, dname, kw):
+    """Datafit-imposed knob values: the SVC dual has no intercept (QuadraticSVC offers no intercept step and
+    LinearSVC.fit always passes fit_intercept=False)."""
+    kw = dict(kw)
+    if dname == "QuadraticSVC" and "fit_intercept" in KNOBS.get(solver, {}):
+        kw["fit_intercept"] = False
+    return kw
